@@ -21,6 +21,7 @@ META.update({
 })
 META["explanation"] += ("  The model queue has the signature of multiprocessing.Queue.get(block=True, timeout=None): a positional number is `block`, "
                         "and a blocking get with nothing left to arrive is a hang.  Records alternate between realigned and passed-through kinds as in C11.")
+META["explanation"] += '  Each configuration is driven through one of three entry points (realign_gaf, run_realign to standard output, run_realign to a file).'
 
 CONFIGS = {
     "quick": [(1, 1, 1, 1), (1, 2, 2, 1), (1, 1, 2, 1), (2, 1, 1, 1), (2, 1, 2, 0)],
